@@ -1,5 +1,5 @@
 (* C03 — XML -> WBXML -> XML round trip preserves the document and is idempotent.
-   Only statements, each closed by `exact`, with Print Assumptions beneath.
+   Only statements, each closed by `exact`, with the Print-Assumptions command under each.
 
    Aimed at (DESIGN.md C03): forall l o t, wf_tree l t -> build l (parse (enc_wbxml l o t)) = Ok (norm o t), norm idempotent,
    second iteration byte-identical.  What is PROVED here is the part that lives on the encoder's tree type
